@@ -26,6 +26,18 @@ def _fbits(x: float) -> bytes:
     return struct.pack('>d', x)
 
 
+SKIP_EXCLUDED = [False]   # C05/C19: compare dataclass instances modulo fields the user excluded
+
+
+def _ckey(x: t.Any) -> t.Any:
+    """Canonical, order-free key of a hashable value (set elements, mapping keys)."""
+    if isinstance(x, (set, frozenset)):
+        return (type(x).__name__, sorted((_ckey(e) for e in x), key=repr))
+    if isinstance(x, tuple):
+        return (type(x).__name__, [_ckey(e) for e in x])
+    return (type(x).__name__, repr(x))
+
+
 def same(a: t.Any, b: t.Any, path: str = '$') -> t.Optional[str]:
     from .cg import Inst
     from .tg import VolImage
@@ -81,6 +93,8 @@ def same(a: t.Any, b: t.Any, path: str = '$') -> t.Optional[str]:
     if hasattr(b, '__pane_info__'):
         # two real dataclass instances
         for f in b.__pane_info__.fields:
+            if SKIP_EXCLUDED[0] and f.exclude:
+                continue
             try:
                 d = same(getattr(a, f.name), getattr(b, f.name), f"{path}.{f.name}")
             except AttributeError:
@@ -110,8 +124,8 @@ def same(a: t.Any, b: t.Any, path: str = '$') -> t.Optional[str]:
     if tb in (set, frozenset):
         if len(a) != len(b):
             return f"{path}: set size {len(a)} != {len(b)}"
-        ka = sorted((type(x).__name__, repr(x)) for x in a)
-        kb = sorted((type(x).__name__, repr(x)) for x in b)
+        ka = sorted((_ckey(x) for x in a), key=repr)
+        kb = sorted((_ckey(x) for x in b), key=repr)
         if ka != kb:
             return f"{path}: set elements {ka!r:.100} != {kb!r:.100}"
         return None
@@ -120,9 +134,9 @@ def same(a: t.Any, b: t.Any, path: str = '$') -> t.Optional[str]:
             return f"{path}: mapping size {len(a)} != {len(b)}"
         if tb is collections.defaultdict and a.default_factory is not b.default_factory:
             return f"{path}: default_factory differs"
-        bk = {(type(k).__name__, repr(k)): k for k in b}
+        bk = {repr(_ckey(k)): k for k in b}
         for k in a:
-            kk = (type(k).__name__, repr(k))
+            kk = repr(_ckey(k))
             if kk not in bk:
                 return f"{path}: unexpected key {k!r} ({type(k).__name__})"
             d = same(a[k], b[bk[kk]], f"{path}[{k!r}]")
@@ -136,7 +150,8 @@ def same(a: t.Any, b: t.Any, path: str = '$') -> t.Optional[str]:
     if isinstance(b, enum.Enum):
         return None if a is b else f"{path}: enum member {a!r} is not {b!r}"
     if tb.__module__ == 'numpy' and tb.__name__ == 'ndarray':
-        if a.dtype != b.dtype or a.shape != b.shape:
+        same_dtype = a.dtype == b.dtype or (a.dtype.kind == b.dtype.kind and a.dtype.kind in 'US')   # string width is incidental
+        if not same_dtype or a.shape != b.shape:
             return f"{path}: array dtype/shape {a.dtype}{a.shape} != {b.dtype}{b.shape}"
         return same(a.tolist(), b.tolist(), path + '.tolist()')
     if isinstance(b, (datetime.datetime, datetime.time)):
